@@ -10,6 +10,8 @@ package verifsim
 import (
 	"encoding/json"
 	"fmt"
+	"go/build"
+	"io"
 	"os"
 	"sort"
 	"strings"
@@ -24,6 +26,8 @@ type Fault struct {
 	Op    int    `json:"op"`    // index of the mutating operation
 	K     int    `json:"k"`     // bytes that reach the file (crash-in-write, short-write)
 	Errno string `json:"errno"` // EIO | EACCES | EROFS | ENOSPC
+	Path  string `json:"path"`  // read-err: suffix of the source file whose n-th open fails
+	Nth   int    `json:"nth"`
 }
 
 type Plan struct {
@@ -215,6 +219,44 @@ func Shuffle[T any](xs []T) []T {
 	}
 	tracef("pluginorder %v", p)
 	return out
+}
+
+// InstallBuildHooks is called first thing in main. When the plan contains
+// read faults it routes go/build's (and the loader's) file opens through
+// build.Default.OpenFile. Setting that callback makes go/build give up module
+// resolution, so read faults are only planned for GOPATH-mode worlds; without
+// read faults nothing is installed.
+func InstallBuildHooks() {
+	var reads []*Fault
+	for i := range plan.Faults {
+		if plan.Faults[i].Kind == "read-err" {
+			reads = append(reads, &plan.Faults[i])
+		}
+	}
+	if len(reads) == 0 {
+		return
+	}
+	var rmu sync.Mutex
+	opens := map[string]int{}
+	build.Default.OpenFile = func(path string) (io.ReadCloser, error) {
+		rmu.Lock()
+		n := opens[path]
+		opens[path]++
+		rmu.Unlock()
+		for _, f := range reads {
+			if strings.HasSuffix(path, f.Path) && n == f.Nth {
+				mu.Lock()
+				tracef("fault read-err %s open #%d", f.Path, n)
+				mu.Unlock()
+				e, ok := errnos[f.Errno]
+				if !ok {
+					e = syscall.EIO
+				}
+				return nil, &os.PathError{Op: "open", Path: path, Err: e}
+			}
+		}
+		return os.Open(path)
+	}
 }
 
 // ------------------------------------------------------------------ files
